@@ -257,7 +257,7 @@ def connect(R):
     HT = "%s.scheme == 'https'" % pu
     for (conds, val, site) in cases:
         v = fold(R, val, g.ctx)
-        if otext(R, g, site, val) == 'int(%s.port)' % pu and (pu + '.port', True) in conds:
+        if otext(R, g, site, val) in ('int(%s.port)' % pu, '%s.port' % pu) and (pu + '.port', True) in conds:
             seen_cases.add('explicit')
         elif v == 443 and (pu + '.port', False) in conds and (HT, True) in conds:
             seen_cases.add('https')
